@@ -9,11 +9,15 @@ import (
 	"bytes"
 	"crypto/aes"
 	"encoding/binary"
+	"encoding/hex"
 	"encoding/json"
 	"fmt"
 	"io/ioutil"
 	"math/rand"
+	"os"
+	"os/exec"
 	"path/filepath"
+	"strings"
 
 	"github.com/Eyevinn/mp4ff/avc"
 	"github.com/Eyevinn/mp4ff/mp4"
@@ -349,6 +353,7 @@ type cencJob struct {
 	initBytes     []byte
 	segBytes      []byte
 	infos         []mSample
+	tool          bool   // encrypt / decrypt with the built mp4ff-encrypt / mp4ff-decrypt binaries instead of the API
 	sliceHead     []byte // generated cbcs video: head of a real slice copied into every video NAL unit
 }
 
@@ -373,6 +378,8 @@ func cencDrive(args []string) error {
 		return err
 	}
 	rep := newReport()
+	c07EncBin, c07DecBin = argValue(args, "-encbin", ""), argValue(args, "-decbin", "")
+	toolRuns := 0
 	key := []byte{0x00, 0x11, 0x22, 0x33, 0x44, 0x55, 0x66, 0x77, 0x88, 0x99, 0xaa, 0xbb, 0xcc, 0xdd, 0xee, 0xff}
 	var cases []cencCase
 	if err := readLines(argValue(args, "-in", "-"), func(line []byte) error {
@@ -422,6 +429,12 @@ func cencDrive(args []string) error {
 			job.iv = iv
 			job.extras = []string{"none", "nouuid-in-traf", "all"}[ci%3]
 			cencRun(rep, tw7, tw6, &job, key, fmt.Sprintf("case%d", ci))
+			if c07EncBin != "" && ci%3 == int(seedFromEnv())%3 {
+				tj := job
+				tj.tool, tj.infos = true, nil
+				cencRun(rep, tw7, tw6, &tj, key, fmt.Sprintf("tool:case%d", ci))
+				toolRuns++
+			}
 		}
 		rep.Count(fmt.Sprint(c.Codec, c.Nals), true, nil)
 	}
@@ -450,6 +463,12 @@ func cencDrive(args []string) error {
 				extras: []string{"none", "nouuid-in-traf", "all"}[ci%3]}
 			job.samples = [][]cencNal{c.Nals, c.Nals}
 			cencRun(rep, tw7, tw6, &job, key, fmt.Sprintf("cbcs-video-case%d", ci))
+			if c07EncBin != "" && ci%2 == 0 {
+				tj := job
+				tj.tool, tj.infos = true, nil
+				cencRun(rep, tw7, tw6, &tj, key, fmt.Sprintf("tool:cbcs-video-case%d", ci))
+				toolRuns++
+			}
 			rep.Count(fmt.Sprint("cbcs-video", c.Nals), true, nil)
 			n++
 		}
@@ -463,9 +482,16 @@ func cencDrive(args []string) error {
 		for _, scheme := range []string{"cenc", "cbcs"} {
 			job := cencJob{codec: "avc", scheme: scheme, corpus: true, initBytes: ini, segBytes: seg, iv: ivClasses[3], ivLen: 16, extras: "none"}
 			cencRun(rep, tw7, tw6, &job, key, "corpus:init.mp4+1.m4s")
+			if c07EncBin != "" {
+				tj := job
+				tj.tool = true
+				cencRun(rep, tw7, tw6, &tj, key, "tool:corpus:init.mp4+1.m4s")
+				toolRuns++
+			}
 			rep.Count("corpus"+scheme, true, J{"corpus": "init.mp4+1.m4s", "scheme": scheme})
 		}
 	}
+	rep.Extra["tool_runs"] = toolRuns
 	rep.Extra["events07"] = tw7.N
 	rep.Extra["traces07"] = tw7.T
 	rep.Extra["events06"] = tw6.N
@@ -504,6 +530,28 @@ func corpusSliceHead(dir string) []byte {
 		}
 	}
 	return nil
+}
+
+var c07EncBin, c07DecBin string
+
+// runTool writes in to a temporary file, runs bin [args] infile outfile and returns the output file.
+func runTool(bin string, in []byte, args ...string) ([]byte, error) {
+	dir, err := ioutil.TempDir("", "c07tool")
+	if err != nil {
+		return nil, err
+	}
+	defer os.RemoveAll(dir)
+	ip, op := filepath.Join(dir, "in.mp4"), filepath.Join(dir, "out.mp4")
+	if err := ioutil.WriteFile(ip, in, 0o644); err != nil {
+		return nil, err
+	}
+	cmd := exec.Command(bin, append(args, ip, op)...)
+	var stderr bytes.Buffer
+	cmd.Stderr = &stderr
+	if err := cmd.Run(); err != nil {
+		return nil, fmt.Errorf("%v: %s", err, strings.TrimSpace(stderr.String()))
+	}
+	return ioutil.ReadFile(op)
 }
 
 func nalsOfSample(s []byte) []cencNal {
@@ -590,27 +638,44 @@ func cencRun(rep *Report, tw7, tw6 *TraceWriter, job *cencJob, key []byte, name 
 		ivArg = job.iv[:8]
 	}
 	kid := mp4.UUID(bytes.Repeat([]byte{0x42}, 16))
-	ipd, err := mp4.InitProtect(f.Init, key, ivArg, job.scheme, kid, nil)
-	if err != nil {
-		rep.Violation("encrypt/initprotect-error", "InitProtect fails: "+err.Error(), cs)
-		return
-	}
+	var enc []byte
 	nfr := 0
-	for _, seg := range f.Segments {
-		for _, fr := range seg.Fragments {
-			if err := mp4.EncryptFragment(fr, key, ivArg, ipd); err != nil {
-				rep.Violation("encrypt/error", "EncryptFragment fails: "+err.Error(), cs)
-				return
-			}
-			nfr++
+	if job.tool {
+		// the shipped command line tool, built from the working tree
+		out, err := runTool(c07EncBin, clearFile, "-kid", hex.EncodeToString(kid), "-key", hex.EncodeToString(key), "-iv", hex.EncodeToString(ivArg), "-scheme", job.scheme)
+		if err != nil {
+			rep.Violation("encrypt/tool-error", "mp4ff-encrypt fails: "+err.Error(), cs)
+			return
 		}
+		enc = out
+		top, _ := walkBoxes(enc, 0)
+		for _, b := range top {
+			if b.Type == "moof" {
+				nfr++
+			}
+		}
+	} else {
+		ipd, err := mp4.InitProtect(f.Init, key, ivArg, job.scheme, kid, nil)
+		if err != nil {
+			rep.Violation("encrypt/initprotect-error", "InitProtect fails: "+err.Error(), cs)
+			return
+		}
+		for _, seg := range f.Segments {
+			for _, fr := range seg.Fragments {
+				if err := mp4.EncryptFragment(fr, key, ivArg, ipd); err != nil {
+					rep.Violation("encrypt/error", "EncryptFragment fails: "+err.Error(), cs)
+					return
+				}
+				nfr++
+			}
+		}
+		var eb bytes.Buffer
+		if err := f.Encode(&eb); err != nil {
+			rep.Violation("encrypt/encode-error", "encrypted file does not encode: "+err.Error(), cs)
+			return
+		}
+		enc = eb.Bytes()
 	}
-	var eb bytes.Buffer
-	if err := f.Encode(&eb); err != nil {
-		rep.Violation("encrypt/encode-error", "encrypted file does not encode: "+err.Error(), cs)
-		return
-	}
-	enc := eb.Bytes()
 	// ---- C07: observe
 	ivSize := 16
 	crypt, skip := 0, 0
@@ -715,28 +780,38 @@ func cencRun(rep *Report, tw7, tw6 *TraceWriter, job *cencJob, key []byte, name 
 				rt["err"] = fmt.Sprintf("panic: %v", r)
 			}
 		}()
-		f2, err := mp4.DecodeFile(bytes.NewReader(enc))
-		if err != nil {
-			rt["err"] = "decode encrypted: " + err.Error()
-			return
-		}
-		di, err := mp4.DecryptInit(f2.Init)
-		if err != nil {
-			rt["err"] = "DecryptInit: " + err.Error()
-			return
-		}
-		for _, seg := range f2.Segments {
-			if err := mp4.DecryptSegment(seg, di, key); err != nil {
-				rt["err"] = "DecryptSegment: " + err.Error()
+		var dec []byte
+		if job.tool {
+			out, err := runTool(c07DecBin, enc, "-key", hex.EncodeToString(key))
+			if err != nil {
+				rt["err"] = "mp4ff-decrypt: " + err.Error()
 				return
 			}
+			dec = out
+		} else {
+			f2, err := mp4.DecodeFile(bytes.NewReader(enc))
+			if err != nil {
+				rt["err"] = "decode encrypted: " + err.Error()
+				return
+			}
+			di, err := mp4.DecryptInit(f2.Init)
+			if err != nil {
+				rt["err"] = "DecryptInit: " + err.Error()
+				return
+			}
+			for _, seg := range f2.Segments {
+				if err := mp4.DecryptSegment(seg, di, key); err != nil {
+					rt["err"] = "DecryptSegment: " + err.Error()
+					return
+				}
+			}
+			var db bytes.Buffer
+			if err := f2.Encode(&db); err != nil {
+				rt["err"] = "encode decrypted: " + err.Error()
+				return
+			}
+			dec = db.Bytes()
 		}
-		var db bytes.Buffer
-		if err := f2.Encode(&db); err != nil {
-			rt["err"] = "encode decrypted: " + err.Error()
-			return
-		}
-		dec := db.Bytes()
 		f3, err := mp4.DecodeFile(bytes.NewReader(dec))
 		if err != nil {
 			rt["err"] = "decode decrypted: " + err.Error()
